@@ -21,6 +21,15 @@ PROPS = {
     },
 }
 
+PROPS['C16'] = {
+    'units': ['parser'],
+    'level': 'proof',
+    'claim': 'Parser::resolve_tag is verified against resolve_spec, a spec function transcribed from the property statement (five cases); parser_process_directives against tag_table/dup_handle (all %TAG directives of a document in force together, a handle only once, a second %YAML rejected); document_end resets the table unless keep_tags. For all token streams and all table contents.',
+    'technique': 'Verus: function-against-spec-function postconditions on resolve_tag and parser_process_directives; loop invariant relating the local table to tag_table(prefix)',
+    'not_decided': ['the character-level tag scanners (scan_tag*, scan_uri_escapes) are tier 2 of the scanner unit', 'percent-decoding of the suffix happens in the scanner'],
+    'trust': ['hash-table key model for String keys looked up through &str (string_of axioms)', 'Display/to_string of String and Cow<str> prints the content', 'closure ensures annotations inserted into resolve_tag (insert-only, logged as R7)'],
+}
+
 
 def trusted_base(pid):
     return COMMON_TRUST + PROPS[pid].get('trust', [])
